@@ -7,7 +7,8 @@ From Coq Require Import ZArith List Bool String.
 Import ListNotations.
 Require Import OV.Gen.VersionTables OV.Gen.VersionSchemas OV.Version.Model OV.Version.Adapters OV.Version.AdaptersProofs
                OV.Version.ConvertProofs OV.Version.Std OV.Version.StdProofs
-               OV.Version.Schema OV.Version.SchemaProofs OV.Version.SchemaStd OV.Version.SchemaStdProofs.
+               OV.Version.Schema OV.Version.SchemaProofs OV.Version.SchemaStd OV.Version.SchemaStdProofs
+               OV.Version.AdaptTypingProofs OV.Version.Model2 OV.Version.Model2Proofs.
 Open Scope Z_scope.
 
 (* ---- convert_consistent: a conversion that finishes without a logged skip declares the target
@@ -332,32 +333,34 @@ Proof. exact quantizelinear_19_refuted. Qed.
 Print Assumptions C10_unadapted_steps_compatible_refuted.
 
 (* valid under the schema in force at s => valid under the schema in force at t, for every operator without an
-   adapter, unless a listed exception lies in (s, t] *)
+   adapter at any version >= s (so also DFT / GridSample from 20, GroupNormalization from 21), unless a listed
+   exception lies in (s, t] *)
 Theorem C10_restamped_valid : forall n n' info s t,
-  strip n' = strip n -> q_std (n_op n) = true -> clear_of schema_exceptions (n_op n) s t = true -> s <= t ->
+  strip n' = strip n -> q_from s (n_op n) = true -> clear_of schema_exceptions (n_op n) s t = true -> s <= t ->
   valid_at schema_table (n_op n) s (vnode_of n info) = true ->
   valid_at schema_table (n_op n') t (vnode_of n' info) = true.
 Proof. exact restamped_valid. Qed.
 Print Assumptions C10_restamped_valid.
 
 (* ---- connected to the state machine: the "passes the checker against t" half of the property for the native path.
-   A model all of whose default-domain operators (main graph, subgraphs, functions) have no adapter is converted by
+   A model all of whose default-domain operators (main graph, subgraphs, functions) have no adapter at any version >= s
+   (q_from s: also a DFT / GridSample node at s >= 20 or a GroupNormalization node at s >= 21) is converted by
    re-stamping only -- same nodes up to versions, recursively (strip forgets versions at every depth) -- and every node
    (at any depth: the last conjunct holds for any pair of nodes equal up to versions) that is valid under the schema
    of the source opset is valid under the schema of the target opset.
-   _partial: nodes handled by an adapter (DFT, GridSample, GroupNormalization) are not covered by the validity
-   conjunct (their replacement nodes carry no type information in this model); "valid" is schema validity (arity,
+   _partial: for nodes that DO go through an adapter see C10_dft/gridsample/groupnorm_converted_valid below (stated per
+   adapter, not yet threaded through convert_native as one statement); "valid" is schema validity (arity,
    attributes, types, type-variable binding), not shape inference or attribute *values*; equality of outputs is
    observed (backend node tests relabelled to the old opset), not proved. *)
 Theorem C10_convert_valid_unadapted_partial : forall fx fuel s t M M' l,
   consistent_at s M = true ->
-  forallb (quietb q_std) (m_graph M) = true ->
-  forallb (fun f => forallb (quietb q_std) (f_nodes f)) (m_funcs M) = true ->
+  forallb (quietb (q_from s)) (m_graph M) = true ->
+  forallb (fun f => forallb (quietb (q_from s)) (f_nodes f)) (m_funcs M) = true ->
   convert_native (std_adapt fx) supported_min supported_max fuel M t = MDone M' l ->
   Forall2 (fun n n' => strip n' = strip n) (m_graph M) (m_graph M') /\
   Forall2 (fun f f' => Forall2 (fun n n' => strip n' = strip n) (f_nodes f) (f_nodes f')) (m_funcs M) (m_funcs M') /\
   m_decl M' = Some t /\ t <= supported_max /\
-  (s <= t -> forall n n' info, strip n' = strip n -> q_std (n_op n) = true ->
+  (s <= t -> forall n n' info, strip n' = strip n -> q_from s (n_op n) = true ->
      clear_of schema_exceptions (n_op n) s t = true ->
      valid_at schema_table (n_op n) s (vnode_of n info) = true ->
      valid_at schema_table (n_op n') t (vnode_of n' info) = true).
@@ -366,7 +369,7 @@ Print Assumptions C10_convert_valid_unadapted_partial.
 
 Theorem C10_convert_valid_unadapted_example : exists M',
   consistent_at 18 ex_quiet_model = true /\
-  forallb (quietb q_std) (m_graph ex_quiet_model) = true /\
+  forallb (quietb (q_from 18)) (m_graph ex_quiet_model) = true /\
   std_native flags_current ex_quiet_model 25 = MDone M' [] /\
   valid_at schema_table "Cast" 18 (vnode_of cast_node cast_info) = true /\
   valid_at schema_table "If" 18 (vnode_of if_node if_info) = true /\
@@ -389,3 +392,105 @@ Theorem C10_native_function_opset_ignored_refuted : forall fx, exists M M' f',
   map strip (f_nodes f') = [strip dft_axis1].
 Proof. exact native_function_opset_ignored. Qed.
 Print Assumptions C10_native_function_opset_ignored_refuted.
+
+(* a DFT node already past its adapter version is a quiet node: 20 -> 25 re-stamps it *)
+Theorem C10_past_adapter_quiet_example :
+  q_from 20 "DFT" = true /\ q_from 20 "GridSample" = true /\ q_from 20 "GroupNormalization" = false /\
+  q_from 21 "GroupNormalization" = true /\ q_from 19 "DFT" = false /\ q_from 18 "Cast" = true.
+Proof. exact past_adapter_quiet_example. Qed.
+Print Assumptions C10_past_adapter_quiet_example.
+
+(* ---- nodes that DO go through an adapter: the replacement nodes, typed from the typing of the node they replace, are
+   valid under the schema of every target t from the adapter's version on.  Explicit hypotheses = what validity of the
+   old node at the source opset says about it: the inputs the adapter reads are present and their types lie in the type
+   sets of the old schema (in_types), the output has the type of the first input.
+   DFT: [Constant(value_int) : int64; DFT(x : t0, dft_length : t1 if present, axis : int64) : t0] *)
+Theorem C10_dft_converted_valid : forall fx n news t0 t1 t,
+  dft_19_20 fx n = AReplace news -> present 0 n = true ->
+  In t0 (in_types "DFT" 19 0) -> In t1 (in_types "DFT" 19 1) -> 20 <= t ->
+  valid_list t news (dft_infos t0 t1) = true.
+Proof. exact dft_converted_valid. Qed.
+Print Assumptions C10_dft_converted_valid.
+
+Theorem C10_dft_converted_valid_example : exists news,
+  dft_19_20 flags_fixed (Node "DFT" true None false [("onesided"%string, AInt 1)] [true; true] [] []) = AReplace news /\
+  valid_at schema_table "DFT" 19 (vnode_of (Node "DFT" true None false [("onesided"%string, AInt 1)] [true; true] [] [])
+                                           (NInfo ["tensor(float)"%string; i64] [Some "tensor(float)"%string] [])) = true /\
+  In "tensor(float)"%string (in_types "DFT" 19 0) /\ In i64 (in_types "DFT" 19 1) /\
+  valid_list 25 news (dft_infos "tensor(float)" i64) = true /\ List.length news = 2%nat.
+Proof. exact dft_converted_example. Qed.
+Print Assumptions C10_dft_converted_valid_example.
+
+(* GridSample: the one node with the renamed mode string, same inputs and output *)
+Theorem C10_gridsample_converted_valid : forall n news tx tg t,
+  gridsample_19_20 n = AReplace news -> present 0 n = true -> present 1 n = true ->
+  In tx (in_types "GridSample" 19 0) -> In tg (in_types "GridSample" 19 1) -> 20 <= t ->
+  valid_list t news (gs_infos tx tg) = true.
+Proof. exact gridsample_converted_valid. Qed.
+Print Assumptions C10_gridsample_converted_valid.
+
+(* GroupNormalization with a static channel dimension (the adapter decided to expand): three int64 Constants,
+   Reshape/Expand/Reshape of scale and bias, GroupNormalization with per-channel vectors; epsilon, if the old node has
+   one, is a float attribute *)
+Theorem C10_groupnorm_converted_valid : forall fx n g d T t,
+  (forall v, lookup "epsilon" (n_attrs n) = Some v -> exists b, v = AFlt b) ->
+  In T (in_types "GroupNormalization" 20 0) -> 21 <= t ->
+  valid_list t (gn_new_nodes fx n g d) (gn_infos T) = true.
+Proof. exact groupnorm_converted_valid. Qed.
+Print Assumptions C10_groupnorm_converted_valid.
+
+Theorem C10_adapter_typing_nonvacuous :
+  In "tensor(float)"%string (in_types "GridSample" 19 0) /\ In "tensor(float)"%string (in_types "GridSample" 19 1) /\
+  In "tensor(float)"%string (in_types "GroupNormalization" 20 0) /\
+  valid_list 25 (gn_new_nodes flags_fixed gn_static 2 3) (gn_infos "tensor(float)") = true.
+Proof. exact adapter_typing_nonvacuous. Qed.
+Print Assumptions C10_adapter_typing_nonvacuous.
+
+(* ---- the two repaired variants of visit_model (Model2.v; proposed_fixes/ready/C10_01 and C10_02).  Both off = the
+   converter as read. *)
+Theorem C10_native2_off : forall adapt smin smax fuel M t,
+  convert_native2 false false adapt smin smax fuel M t = convert_native adapt smin smax fuel M t.
+Proof. exact native2_off. Qed.
+Print Assumptions C10_native2_off.
+
+(* on a model consistent at s the function-opset repair changes nothing: every theorem above carries over *)
+Theorem C10_native2_own_agree : forall adapt smin smax fuel refuse s M t,
+  consistent_at s M = true ->
+  convert_native2 true refuse adapt smin smax fuel M t = convert_native2 false refuse adapt smin smax fuel M t.
+Proof. exact native2_own_agree. Qed.
+Print Assumptions C10_native2_own_agree.
+
+(* _fixed counterpart of C10_native_function_opset_ignored_refuted: functions may declare other opsets than the model;
+   each container consistent with its own import => the result is consistent at the target *)
+Theorem C10_native_function_opset_fixed : forall fx fuel refuse s t M M',
+  locally_consistent s M = true ->
+  convert_native2 true refuse (std_adapt fx) supported_min supported_max fuel M t = MDone M' [] ->
+  consistent_at t M' = true.
+Proof. exact (fun fx fuel => native2_own_consistent (std_adapt fx) supported_min supported_max fuel (std_adapt_flat fx)). Qed.
+Print Assumptions C10_native_function_opset_fixed.
+
+Theorem C10_native_function_opset_fixed_example : forall fx,
+  locally_consistent 20 w_func_opset2 = true /\ consistent_at 20 w_func_opset2 = false /\
+  (exists M', std_native2 false false fx w_func_opset2 21 = MDone M' [] /\
+              map (fun f => map n_op (f_nodes f)) (m_funcs M') = [["DFT"%string]]) /\
+  (exists M', std_native2 true false fx w_func_opset2 21 = MDone M' [] /\ consistent_at 21 M' = true /\
+              map (fun f => map n_op (f_nodes f)) (m_funcs M') = [["Constant"%string; "DFT"%string]]).
+Proof. exact function_opset_fixed. Qed.
+Print Assumptions C10_native_function_opset_fixed_example.
+
+(* _fixed counterpart of the QuantizeLinear finding: when the pre-check fires the converter raises and the model is
+   exactly the one passed in ("an unsupported conversion leaves the model as it was") *)
+Theorem C10_quantizelinear_refused_unchanged_fixed : forall adapt smin smax fuel own M t dv fvs,
+  (t >? smax) || (t <? smin) = false -> default_version M = Some dv -> versions_of own dv (m_funcs M) = Some fvs ->
+  existsb (refuses t dv) (m_graph M) || existsb (fun p => existsb (refuses t (snd p)) (f_nodes (fst p))) fvs = true ->
+  convert_native2 own true adapt smin smax fuel M t = MRaised ERefused M [].
+Proof. exact native2_refused_unchanged. Qed.
+Print Assumptions C10_quantizelinear_refused_unchanged_fixed.
+
+Theorem C10_quantizelinear_refused_example : forall fx own,
+  std_native2 own true fx w_ql 19 = MRaised ERefused w_ql [] /\
+  std_native2 own true fx w_ql 22 = MRaised ERefused w_ql [] /\
+  (exists M', std_native2 own true fx w_ql 23 = MDone M' [] /\ consistent_at 23 M' = true) /\
+  (exists M', std_native2 own false fx w_ql 19 = MDone M' [] /\ consistent_at 19 M' = true).
+Proof. exact quantizelinear_refused. Qed.
+Print Assumptions C10_quantizelinear_refused_example.
